@@ -354,6 +354,14 @@ double cimag(double _Complex z);
 #else
 #define GD_BUFFER_SIZE 9000000
 #endif
+#ifdef GD_VERIF_HOOKS
+/* verification hook: allow small I/O buffers so buffer-boundary behaviour is
+ * reachable with small files */
+# ifdef GD_VERIF_BUFFER_SIZE
+#  undef GD_BUFFER_SIZE
+#  define GD_BUFFER_SIZE GD_VERIF_BUFFER_SIZE
+# endif
+#endif
 
 /* the default mplex cycle length */
 #define GD_MPLEX_CYCLE 10
